@@ -248,6 +248,14 @@ def analyse(prog: Program, L: Ledger, ci: ClassInfo, f: FuncInfo, deltas: list[i
         S = mat3("S")
         eps = mat3("eps")
         v.bind("context.external_stress", S)
+        # a determinant of the cell is the SIGNED volume: ±V (the orientation of the cell vectors is the user's choice, a
+        # left-handed cell is legal); only its absolute value is the volume the formula speaks of
+        for txts_, vol_, sg_ in (
+            (("np.linalg.det(context.atoms.cell.array)", "np.linalg.det(context.atoms.get_cell().array)", "np.linalg.det(context.atoms.get_cell())", "np.linalg.det(context.atoms.cell)"), "V1", "hand1"),
+            (("np.linalg.det(context.last_cell.array)", "np.linalg.det(context.last_cell)"), "V0", "hand0"),
+        ):
+            for txt_ in txts_:
+                v.bind(txt_, v.sym(vol_, **POS) * v.sym(sg_, **REAL))
         if delta is not None:
             v.bind("context.particle_delta", sp.Integer(delta))
         strain_exprs = []
@@ -259,6 +267,18 @@ def analyse(prog: Program, L: Ledger, ci: ClassInfo, f: FuncInfo, deltas: list[i
             return None
 
         t.hooks.append(hook)
+
+        def det_hook(tr, node, _body=body):
+            # np.linalg.det(<a local that names one of the cells>): the signed volume of that cell
+            if isinstance(node, ast.Call) and norm(node.func) in ("np.linalg.det", "numpy.linalg.det") and len(node.args) == 1 and isinstance(node.args[0], ast.Name):
+                from ..dataflow import seq_inline
+
+                txt_ = norm(ast.Call(func=node.func, args=[seq_inline(_body, node.args[0], stop_at=node)], keywords=[]))
+                if txt_ in v.values:
+                    return v.values[txt_]
+            return None
+
+        t.hooks.append(det_hook)
         # pre-bind the strain assignment: translate its RHS separately for the zero-at-identity check
         body2 = []
         for st in body:
